@@ -4,6 +4,7 @@ import BqVerif.Proofs.CircHistory
 import BqVerif.Proofs.Trace
 import BqVerif.Proofs.CircRel
 import BqVerif.Proofs.CircWhole
+import BqVerif.Proofs.CircReplace
 /-! # C04 — Circuit editing calls have their documented effect on program order -/
 namespace BqVerif.C04
 open BqVerif.Circ
@@ -110,5 +111,56 @@ theorem C04_history_inv (radixes : List Nat) (h : List Call) (hok : ∀ call ∈
 example :
     let c : Circ := ⟨[2, 2], [[⟨6, [], [0, 1], [2, 2]⟩], [⟨4, [7], [1], [2]⟩]]⟩
     (0 < c.numCycles) ∧ c.invB = true ∧ c.cell 1 1 = some ⟨4, [7], [1], [2]⟩ := by decide
+
+/-- **replace**, general branch (the new operation's location set differs from the old one's:
+the code pops the old operation and inserts the new one at the NORMALISED original cycle index
+`k`).  For every qudit `q`, with `pre`/`post` the qudit's operations in the cycles before/after
+`k` and `mid` those of cycle `k` other than the replaced one:
+`before = pre ++ [old if on q] ++ mid ++ post` and `after = pre ++ [new if on q] ++ mid ++ post`
+(and `mid = []` when `old` is on `q`).  The call succeeds. -/
+theorem C04_replace_general_timeline (c : Circ) (hinv : c.Inv) (p : Int × Int) (o : Op)
+    (k q0 : Nat) (old : Op) (hg : c.getOp p = .ok (k, q0, old))
+    (hd : disjointL old.loc o.loc = false) (hs : sameSet old.loc o.loc = false)
+    (hv : c.checkValid o = .ok ()) (q : Nat) :
+    ∃ hlt : k < c.cycles.length,
+    (c.replace p o).2 = .ok () ∧
+    c.timeline q = proj q (c.cycles.take k).flatten ++ (if old.on q then [old] else []) ++
+      proj q (c.cycles[k].filter (fun x => !x.on q0)) ++ proj q (c.cycles.drop (k + 1)).flatten ∧
+    (c.replace p o).1.timeline q =
+      proj q (c.cycles.take k).flatten ++ (if o.on q then [o] else []) ++
+      proj q (c.cycles[k].filter (fun x => !x.on q0)) ++ proj q (c.cycles.drop (k + 1)).flatten ∧
+    (old.on q = true → proj q (c.cycles[k].filter (fun x => !x.on q0)) = []) :=
+  replace_general_timeline c hinv p o k q0 old hg hd hs hv q
+
+/-- Corollaries: on a qudit shared by the old and the new operation the new one stands exactly
+where the old one stood; a qudit touched by neither keeps its timeline. -/
+theorem C04_replace_general_shared_and_untouched (c : Circ) (hinv : c.Inv) (p : Int × Int)
+    (o : Op) (k q0 : Nat) (old : Op) (hg : c.getOp p = .ok (k, q0, old))
+    (hd : disjointL old.loc o.loc = false) (hs : sameSet old.loc o.loc = false)
+    (hv : c.checkValid o = .ok ()) (q : Nat) :
+    (q ∈ old.loc → q ∈ o.loc → ∃ pre post, c.timeline q = pre ++ old :: post ∧
+      (c.replace p o).1.timeline q = pre ++ o :: post) ∧
+    (q ∉ old.loc → q ∉ o.loc → (c.replace p o).1.timeline q = c.timeline q) := by
+  obtain ⟨hlt, _, hb, ha, hm⟩ := replace_general_timeline c hinv p o k q0 old hg hd hs hv q
+  constructor
+  · intro h1 h2
+    have h1' : old.on q = true := by simpa [Op.on] using h1
+    have h2' : o.on q = true := by simpa [Op.on] using h2
+    refine ⟨proj q (c.cycles.take k).flatten, proj q (c.cycles.drop (k + 1)).flatten, ?_, ?_⟩
+    · rw [hb, hm h1']; simp [h1']
+    · rw [ha, hm h1']; simp [h2']
+  · intro h1 h2
+    have h1' : old.on q = false := by simpa [Op.on] using h1
+    have h2' : o.on q = false := by simpa [Op.on] using h2
+    rw [ha, hb]; simp [h1', h2']
+
+-- non-vacuity: replacing the CNOT@(0,1) of cycle 1 by a gate on (1,2) (general branch)
+example :
+    let c : Circ := ⟨[2, 2, 2], [[⟨1, [], [0], [2]⟩], [⟨6, [], [0, 1], [2, 2]⟩], [⟨2, [], [1], [2]⟩]]⟩
+    let old : Op := ⟨6, [], [0, 1], [2, 2]⟩
+    let o : Op := ⟨7, [], [1, 2], [2, 2]⟩
+    c.invB = true ∧ c.getOp (-2, 1) = .ok (1, 1, old) ∧ disjointL old.loc o.loc = false ∧
+      sameSet old.loc o.loc = false ∧ c.checkValid o = .ok () ∧
+      (c.replace (-2, 1) o).1.cycles = [[⟨1, [], [0], [2]⟩], [o], [⟨2, [], [1], [2]⟩]] := by decide
 
 end BqVerif.C04
